@@ -894,7 +894,57 @@ def rule_hashable_membership_(ctx: Ctx, rep: Report) -> None:
     rule_hashable_membership(ctx, rep, "C04.hashable_membership", ('btclib.to_pub_key', 'btclib.ecc', 'btclib.curves', 'btclib.script'))
 
 
+UNHONOURED = {"nonce": "the bindings derive their own RFC 6979 nonce", "lower_s": "the bindings always answer a low s", "commit_hash": "the bindings cannot tweak the nonce they derive"}
+
+
+def rule_dispatch_honours_flags(ctx: Ctx, rep: Report) -> None:
+    """C04.dispatch_honours_flags: libsecp256k1's signing derives its own nonce and
+    always normalises s. A signing function that takes a caller's `nonce`, a
+    `lower_s` flag or a commitment hands the work over only when those are at
+    their defaults -- the dispatch test names each of them it has as a
+    parameter -- or hands the parameter itself to the bindings call. With
+    `lower_s` dropped from the test, `lower_s=False` is honoured on the Python
+    arm and ignored on the other: two different (s, key_id) for one call."""
+    rule = "C04.dispatch_honours_flags"
+    n = 0
+    for q, fi in sorted(ctx.prog.functions.items()):
+        if not q.startswith(("btclib.ecc.dsa.", "btclib.ecc.ssa.", "btclib.ecc.bms.")):
+            continue
+        mine = [p_ for p_ in fi.params() if p_ in UNHONOURED]
+        if not mine or "sign" not in fi.name:  # verification checks a commitment after either arm; it is signing that cannot delegate one
+            continue
+        for i in own_nodes(fi.node):
+            if not (isinstance(i, ast.If) and any(isinstance(c, ast.Call) and call_name(c) == "_libsecp256k1_serves" for c in ast.walk(i.test))):
+                continue
+            tnames = {x.id for x in ast.walk(i.test) if isinstance(x, ast.Name)}
+            handed = {x.id for s_ in i.body for c in ast.walk(s_) if isinstance(c, ast.Call) for a_ in list(c.args) + [k.value for k in c.keywords] for x in ast.walk(a_) if isinstance(x, ast.Name)}
+            for p_ in mine:
+                n += 1
+                ok = p_ in tnames or p_ in handed
+                rep.ob(rule, f"{q}:{p_}", ok, fi.where(i), f"`{p_}` gates the dispatch (or is handed to the bindings)" if ok else
+                       f"the dispatch of `{fi.name}` does not ask about `{p_}`, and the bindings call is not given it: {UNHONOURED[p_]}, so the caller's `{p_}` is honoured on one arm only")
+    rep.floor(rule, 5)
+
+
+def rule_arms_answer_in_one_order(ctx: Ctx, rep: Report) -> None:
+    """C04.arms_answer_in_one_order: `output_keys` derives the keys group by group on
+    either arm and re-maps them to the order of the addresses afterwards; an arm
+    that returns before the re-mapping answers in another order than the other
+    (C16.keys_in_address_order, every return of the function, reported here for
+    the two arms giving one answer)."""
+    from rules import C16
+    tmp = Report("C16", rep.tier)
+    tmp.quiet = True
+    C16.rule_keys_in_address_order(ctx, tmp)
+    for o in tmp.obs:
+        rep.ob("C04.arms_answer_in_one_order", o.instance, o.held, o.site, o.detail)
+    rep.floor("C04.arms_answer_in_one_order", 1)
+
+
 RULES = [
+    ("C04.dispatch_honours_flags", rule_dispatch_honours_flags),
+    ("C04.arms_answer_in_one_order", rule_arms_answer_in_one_order),
+
     ("C04.hashable_membership", rule_hashable_membership_),
 
     ("C04.points_compared_whole", rule_points_compared_whole_),
